@@ -42,6 +42,7 @@ import (
 	"tunnox-core/internal/core/idgen"
 	corelog "tunnox-core/internal/core/log"
 	"tunnox-core/internal/core/storage"
+	"tunnox-core/internal/core/types"
 	"tunnox-core/internal/protocol/session"
 	"tunnox-core/internal/stream"
 	"tunnox-core/internal/utils/random"
@@ -75,6 +76,7 @@ type thread struct {
 	resItem    string
 	opDirty    bool
 	wasBlocked bool // was blocked before the last step of somebody else
+	failNext   bool // slot scenarios: the next injectable call of this thread fails
 	waited     bool // a blk event was reported for the current request
 	blocked    bool // scheduler's cache: seen parked inside a lock since the last step of anybody
 	own        string
@@ -382,24 +384,78 @@ func (f *fakeRW) GetConnectionID() string     { f.g.enter(); return f.id }
 
 type connEnv struct {
 	base
-	sm *session.SessionManager
+	sm        *session.SessionManager
+	mem       storage.Storage
+	generated bool // `conng`: connections without an id of their own
+	mu        sync.Mutex
+	gen       map[string]string // item name -> generated connection id
 }
 
 func (e *connEnv) setup() error {
 	mem := storage.NewMemoryStorage(e.ctx)
+	e.mem = mem
+	e.gen = map[string]string{}
 	e.sm = session.NewSessionManagerWithConfig(idgen.NewIDManager(mem, e.ctx), e.ctx, &session.SessionConfig{
 		HeartbeatTimeout: time.Hour, CleanupInterval: time.Hour, MaxConnections: e.k.limit, MaxControlConnections: 0})
 	for i := 0; i < e.k.pre; i++ {
-		rw := &fakeRW{id: fmt.Sprintf("p%d", i), g: e.g}
-		if _, err := e.sm.CreateConnection(rw, rw); err != nil {
-			return err
+		if ok, et := e.admit(nil, fmt.Sprintf("p%d", i)); !ok {
+			return fmt.Errorf("prefill refused %s", et)
 		}
 	}
 	return nil
 }
+
+// plainRW: a reader / writer that brings no connection id.
+type plainRW struct{}
+
+func (plainRW) Read(p []byte) (int, error)  { return 0, io.EOF }
+func (plainRW) Write(p []byte) (int, error) { return len(p), nil }
+
 func (e *connEnv) admit(th *thread, name string) (bool, string) {
 	rw := &fakeRW{id: name, g: e.g}
-	c, err := e.sm.CreateConnection(rw, rw)
+	var c interface{}
+	var err error
+	variant := 0
+	if th != nil {
+		variant = th.tid % 3
+	}
+	if e.generated {
+		// the server generates the id: nothing injectable between check and insert (one step)
+		var conn *types.Connection
+		conn, err = e.sm.CreateConnection(plainRW{}, plainRW{})
+		if conn != nil {
+			c = conn
+			e.mu.Lock()
+			e.gen[name] = conn.ID
+			e.mu.Unlock()
+		}
+	} else {
+		switch variant {
+		case 1:
+			// only the WRITER brings the id (second way to the same decision)
+			var conn *types.Connection
+			conn, err = e.sm.CreateConnection(plainRW{}, rw)
+			if conn != nil {
+				c = conn
+			}
+		case 2:
+			// the production entry point: AcceptConnection = CreateConnection + state update
+			var sc *types.StreamConnection
+			sc, err = e.sm.AcceptConnection(rw, rw)
+			if sc != nil {
+				c = sc
+				if cc, ok := e.sm.GetConnection(sc.ID); !ok || cc.State != types.StateConnected {
+					return false, "err:accepted-not-connected"
+				}
+			}
+		default:
+			var conn *types.Connection
+			conn, err = e.sm.CreateConnection(rw, rw)
+			if conn != nil {
+				c = conn
+			}
+		}
+	}
 	if err != nil {
 		if c != nil {
 			return false, "err:conn-with-error"
@@ -411,16 +467,35 @@ func (e *connEnv) admit(th *thread, name string) (bool, string) {
 	}
 	return true, ""
 }
+func (e *connEnv) realID(name string) string {
+	e.mu.Lock()
+	defer e.mu.Unlock()
+	if id, ok := e.gen[name]; ok {
+		return id
+	}
+	return name
+}
 func (e *connEnv) release(th *thread, name string) bool {
-	_, ok := e.sm.GetConnection(name)
-	e.sm.CloseConnection(name)
+	id := e.realID(name)
+	_, ok := e.sm.GetConnection(id)
+	e.sm.CloseConnection(id)
 	return ok
 }
 func (e *connEnv) occupancy() int { return e.sm.GetConnectionStats().TotalConnections }
 func (e *connEnv) items() []string {
+	e.mu.Lock()
+	back := map[string]string{}
+	for n, id := range e.gen {
+		back[id] = n
+	}
+	e.mu.Unlock()
 	var r []string
 	for _, c := range e.sm.ListConnections() {
-		r = append(r, c.ID)
+		if n, ok := back[c.ID]; ok {
+			r = append(r, n)
+		} else {
+			r = append(r, c.ID)
+		}
 	}
 	return r
 }
@@ -429,7 +504,8 @@ func (e *connEnv) digest() string {
 	sort.Strings(it)
 	// streams of released connections stay registered in the stream manager (CloseConnection does not
 	// remove them); what matters here is that a refused request leaves the number unchanged
-	return fmt.Sprintf("%v/%d", it, e.sm.GetStreamManager().GetStreamCount())
+	// (and, for generated ids, that the id marker of a refused connection is gone from the store)
+	return fmt.Sprintf("%v/%d/%s", it, e.sm.GetStreamManager().GetStreamCount(), storeDigest(e.mem))
 }
 func (e *connEnv) close() { e.sm.Close(); e.cancel() }
 
@@ -451,7 +527,14 @@ func (e *ctrlEnv) reg(name string) bool {
 	e.mu.Unlock()
 	cc := session.NewControlConnection(name, nil, nil, "tcp")
 	cc.CreatedAt = time.Unix(1700000000+seq, 0)
+	if seq%2 == 0 {
+		// every second connection is an authenticated one (client index maintained on insert / eviction)
+		cc.Authenticated, cc.ClientID = true, 70000000+seq
+	}
 	e.sm.RegisterControlConnection(cc)
+	if cc.Authenticated && e.sm.GetControlConnection(name) == cc && e.sm.GetControlConnectionByClientID(cc.ClientID) != cc {
+		return false
+	}
 	return e.sm.GetControlConnection(name) == cc
 }
 func (e *ctrlEnv) setup() error {
@@ -471,7 +554,12 @@ func (e *ctrlEnv) setup() error {
 func (e *ctrlEnv) admit(th *thread, name string) (bool, string) { return e.reg(name), "" }
 func (e *ctrlEnv) release(th *thread, name string) bool {
 	ok := e.sm.GetControlConnection(name) != nil
-	e.sm.RemoveControlConnection(name)
+	if th != nil && th.tid%2 == 1 {
+		// the other way out of the registry: the connection is closed as a whole
+		e.sm.CloseConnection(name)
+	} else {
+		e.sm.RemoveControlConnection(name)
+	}
 	return ok
 }
 func (e *ctrlEnv) occupancy() int { return e.sm.GetConnectionStats().ControlConnections }
@@ -693,20 +781,36 @@ func (e *ctrlxEnv) victimClosed(name string) bool {
 
 type tunEnv struct {
 	base
-	r *session.TunnelRegistry
+	r     *session.TunnelRegistry
+	sm    *session.SessionManager // limit 0 only
+	mu    sync.Mutex
+	names []string
 }
 
 func (e *tunEnv) setup() error {
 	e.r = session.NewTunnelRegistry(&session.TunnelRegistryConfig{MaxTunnels: e.k.limit})
+	if e.k.limit == 0 {
+		// the registry as the server builds it: SessionManager configures no tunnel cap
+		mem := storage.NewMemoryStorage(e.ctx)
+		e.sm = session.NewSessionManagerWithConfig(idgen.NewIDManager(mem, e.ctx), e.ctx, &session.SessionConfig{
+			HeartbeatTimeout: time.Hour, CleanupInterval: time.Hour})
+	}
 	for i := 0; i < e.k.pre; i++ {
-		n := fmt.Sprintf("p%d", i)
-		if err := e.r.Register(&session.TunnelConnection{ConnID: n, TunnelID: "t-" + n}); err != nil {
-			return err
+		if ok, _ := e.admit(nil, fmt.Sprintf("p%d", i)); !ok {
+			return fmt.Errorf("prefill refused")
 		}
 	}
 	return nil
 }
 func (e *tunEnv) admit(th *thread, name string) (bool, string) {
+	if e.sm != nil {
+		tc := &session.TunnelConnection{ConnID: name, TunnelID: "t-" + name}
+		e.mu.Lock()
+		e.names = append(e.names, name)
+		e.mu.Unlock()
+		e.sm.RegisterTunnelConnection(tc)
+		return e.sm.GetTunnelConnectionByConnID(name) == tc, ""
+	}
 	err := e.r.Register(&session.TunnelConnection{ConnID: name, TunnelID: "t-" + name})
 	if err != nil {
 		if coreerrors.IsCode(err, coreerrors.CodeResourceExhausted) {
@@ -717,13 +821,33 @@ func (e *tunEnv) admit(th *thread, name string) (bool, string) {
 	return true, ""
 }
 func (e *tunEnv) release(th *thread, name string) bool {
+	if e.sm != nil {
+		ok := e.sm.GetTunnelConnectionByConnID(name) != nil
+		e.sm.RemoveTunnelConnection(name)
+		return ok
+	}
 	ok := e.r.GetByConnID(name) != nil
 	e.r.Remove(name)
 	return ok
 }
-func (e *tunEnv) occupancy() int { return e.r.Count() }
+func (e *tunEnv) occupancy() int {
+	if e.sm != nil {
+		return e.sm.GetConnectionStats().TunnelConnections
+	}
+	return e.r.Count()
+}
 func (e *tunEnv) items() []string {
 	var r []string
+	if e.sm != nil {
+		e.mu.Lock()
+		defer e.mu.Unlock()
+		for _, n := range e.names {
+			if e.sm.GetTunnelConnectionByConnID(n) != nil {
+				r = append(r, n)
+			}
+		}
+		return r
+	}
 	for _, c := range e.r.List() {
 		r = append(r, c.ConnID)
 	}
@@ -733,6 +857,14 @@ func (e *tunEnv) digest() string {
 	it := e.items()
 	sort.Strings(it)
 	var t []string
+	if e.sm != nil {
+		for _, n := range it {
+			if e.sm.GetTunnelConnectionByTunnelID("t-"+n) != nil {
+				t = append(t, "t-"+n)
+			}
+		}
+		return fmt.Sprint(it, t)
+	}
 	for _, c := range e.r.List() {
 		if e.r.GetByTunnelID(c.TunnelID) != nil {
 			t = append(t, c.TunnelID)
@@ -741,10 +873,17 @@ func (e *tunEnv) digest() string {
 	sort.Strings(t)
 	return fmt.Sprint(it, t)
 }
+func (e *tunEnv) close() {
+	if e.sm != nil {
+		e.sm.Close()
+	}
+	e.cancel()
+}
 
 // ---- map / mapu : the client-side mapping handler
 
 type fakeClient struct {
+	fail    func(kind int) bool // slot scenarios: the call of this kind fails for the calling thread
 	ctx     context.Context
 	quota   int
 	mu      sync.Mutex
@@ -756,6 +895,9 @@ type fakeClient struct {
 }
 
 func (c *fakeClient) DialTunnel(tunnelID, mappingID, secretKey string) (net.Conn, stream.PackageStreamer, error) {
+	if c.fail != nil && c.fail(0) {
+		return nil, nil, fmt.Errorf("verif: injected dial failure")
+	}
 	n := c.inside.Add(1)
 	for {
 		m := c.maxIn.Load()
@@ -781,8 +923,13 @@ func (c *fakeClient) ReturnTunnelToPool(mapping.PooledTunnelConnInterface)  {}
 func (c *fakeClient) CloseTunnelFromPool(mapping.PooledTunnelConnInterface) {}
 func (c *fakeClient) IsTunnelPoolEnabled() bool                             { return false }
 func (c *fakeClient) GetContext() context.Context                           { return c.ctx }
-func (c *fakeClient) CheckMappingQuota(string) error                        { return nil }
-func (c *fakeClient) TrackTraffic(string, int64, int64) error               { return nil }
+func (c *fakeClient) CheckMappingQuota(string) error {
+	if c.fail != nil && c.fail(2) {
+		return fmt.Errorf("verif: injected quota failure")
+	}
+	return nil
+}
+func (c *fakeClient) TrackTraffic(string, int64, int64) error { return nil }
 func (c *fakeClient) GetUserQuota() (*models.UserQuota, error) {
 	return &models.UserQuota{MaxConnections: c.quota}, nil
 }
@@ -916,6 +1063,16 @@ func (e *codeEnv) setup() error {
 	e.svcs = map[int]*conncode.Service{}
 	e.ids = map[string]string{}
 	filler := conncode.NewService(e.rawRep, nil, nil, &conncode.Config{MaxActiveCodesPerClient: 1 << 20, MaxActiveMappingsPerClient: 1 << 20}, e.ctx)
+	for i := 0; i < e.k.dead; i++ {
+		// revoked codes stay in the client's index (and are read by every count) but are not active
+		c, err := filler.CreateConnectionCode(&conncode.CreateRequest{TargetClientID: targetClient, TargetAddress: "tcp://127.0.0.1:80", CreatedBy: "h"})
+		if err != nil {
+			return err
+		}
+		if err := filler.RevokeConnectionCode(c.Code, "h"); err != nil {
+			return err
+		}
+	}
 	for i := 0; i < e.k.pre; i++ {
 		c, err := filler.CreateConnectionCode(&conncode.CreateRequest{TargetClientID: targetClient, TargetAddress: "tcp://127.0.0.1:80", CreatedBy: "h"})
 		if err != nil {
@@ -953,10 +1110,28 @@ func (e *codeEnv) release(th *thread, name string) bool {
 	}
 	return e.rawRep.Delete(id) == nil
 }
+
+// occupancy: the client's active codes as the index-based counter sees them, or - if that is larger -
+// the ground truth: codes that were handed out to a caller and are still valid for activation.
 func (e *codeEnv) occupancy() int {
 	n, err := e.rawRep.CountActiveByTargetClient(targetClient)
 	if err != nil {
 		return -1
+	}
+	e.mu.Lock()
+	ids := make([]string, 0, len(e.ids))
+	for _, id := range e.ids {
+		ids = append(ids, id)
+	}
+	e.mu.Unlock()
+	truth := 0
+	for _, id := range ids {
+		if c, err := e.rawRep.GetByID(id); err == nil && c.IsValidForActivation() {
+			truth++
+		}
+	}
+	if truth > n {
+		n = truth
 	}
 	return n
 }
@@ -966,6 +1141,9 @@ func (e *codeEnv) items() []string {
 	defer e.mu.Unlock()
 	var r []string
 	for _, c := range cs {
+		if !c.IsValidForActivation() {
+			continue
+		}
 		found := false
 		for n, id := range e.ids {
 			if id == c.ID {
@@ -1064,6 +1242,20 @@ func (e *mapqEnv) setup() error {
 			return err
 		}
 		e.ids[fmt.Sprintf("p%d", i)] = m.ID
+	}
+	for i := 0; i < e.k.dead; i++ {
+		// revoked mappings stay in the client's list but are not active
+		code, err := e.freshCode()
+		if err != nil {
+			return err
+		}
+		m, err := e.filler.ActivateConnectionCode(&conncode.ActivateRequest{Code: code, ListenClientID: listenClient, ListenAddress: "0.0.0.0:7000"})
+		if err != nil {
+			return err
+		}
+		if err := e.filler.RevokeMapping(m.ID, listenClient, "h"); err != nil {
+			return err
+		}
 	}
 	for _, th := range e.k.threads {
 		if _, ok := e.svcs[th.inst]; !ok {
@@ -1175,6 +1367,7 @@ type kase struct {
 	limit   int
 	pre     int
 	n       int
+	dead    int // entries of the client that are in the index but not active (revoked): they must not count
 	iters   int
 	threads []*thread
 	sched   []int
@@ -1208,7 +1401,7 @@ func (t *toks) want(s string) {
 	}
 }
 
-var zeroUnl = map[string]bool{"conn": true, "ctrl": true, "ctrlx": true, "tun": true, "map": true, "mapu": true, "code": false, "mapq": false}
+var zeroUnl = map[string]bool{"conn": true, "conng": true, "ctrl": true, "ctrlx": true, "tun": true, "map": true, "mapu": true, "code": false, "mapq": false}
 
 func parseCase(s string) (*kase, bool) {
 	t := &toks{t: strings.Fields(s)}
@@ -1227,6 +1420,13 @@ func parseCase(s string) (*kase, bool) {
 	k.limit = t.num()
 	t.want("pre")
 	k.pre = t.num()
+	if t.i < len(t.t) && t.t[t.i] == "dead" {
+		t.i++
+		k.dead = t.num()
+		if (k.proto != "code" && k.proto != "mapq") || k.dead > 64 {
+			t.e = true
+		}
+	}
 	if k.free {
 		t.want("n")
 		k.n = t.num()
@@ -1287,6 +1487,8 @@ func newEnv(k *kase, g *gate) env {
 	switch k.proto {
 	case "conn":
 		return &connEnv{base: b}
+	case "conng":
+		return &connEnv{base: b, generated: true}
 	case "ctrl":
 		return &ctrlEnv{base: b}
 	case "ctrlx":
